@@ -6,7 +6,7 @@ from checks.common import *
 
 RULE = ("bases of 1-5 shells (l 0..3, generalized, all coordinate types) with centres from coincident to well separated, "
         "exponents 0.05..50 (0.1..10 for the repulsion array), including nearly linearly dependent bases (shells duplicated "
-        "with exponents scaled by 1 + 1e-3); eigenvalues of the returned overlap / kinetic / -(point-charge) matrices and of the "
+        "with exponents scaled by 1 + 1e-3; two s shells 1e-5..1e-1 apart with a positive charge next to them); eigenvalues of the returned overlap / kinetic / -(point-charge) matrices and of the "
         "repulsion array viewed as a matrix over index pairs must be >= -1e-9 (1e-6) x the largest eigenvalue; |S_ab| <= 1; "
         "(ab|ab) >= 0 and (ab|cd)^2 <= (ab|ab)(cd|cd) elementwise; distinct by basis signature")
 ASSUMPTIONS = ["eigenvalue slack of the floating-point matrices is the property's own (1e-9 / 1e-6 of the largest eigenvalue)"]
@@ -111,10 +111,34 @@ def many_charges_case(run, ncharge=220):
     return True
 
 
+def near_coincident_charge_case(run):
+    """two nearly coincident s shells (separation R over 1e-5 .. 1e-1, three exponents) with one positive charge at the distance
+    0.5 R, 1.06 R, 2 R off the axis of the pair: the Boys arguments of the diagonal and of the cross primitive pairs then lie within
+    a factor 1.2 .. 4 of each other across p R^2 = 1e-10 .. 1e-2, so a Boys function that is not smooth there (a switch between two
+    formulas) makes |V12| exceed sqrt(V11 V22); deterministic"""
+    from gbasis.integrals.point_charge import point_charge_integral
+    run.case(("near-coincident-charge",))
+    for e in (1.0, 0.25, 6.0):
+        for R in (1e-5, 2e-5, 6e-5, 2e-4, 6e-4, 2e-3, 6e-3, 2e-2, 6e-2, 1e-1):
+            for ratio in (0.5, 1.06, 2.0):
+                specs = [ShellSpec(0, [-R / 2, 0.0, 0.0], [e], [[1.0]], sph=True), ShellSpec(0, [R / 2, 0.0, 0.0], [e], [[1.0]], sph=True)]
+                m = point_charge_integral(make_basis(specs), np.array([[0.0, ratio * R, 0.0]]), np.array([1.0]))[:, :, 0]
+                run.count("nearly coincident s shells with a positive charge next to them")
+                ev = np.linalg.eigvalsh(-(m + m.T) / 2)
+                if not np.all(np.isfinite(m)) or ev.min() < -1e-9 * max(abs(ev.max()), 1e-300):
+                    run.violation(f"point-charge matrix of a unit positive charge at (0, {ratio * R!r}, 0) for two s shells (exponent {e!r}) at "
+                                  f"x = -/+ {R / 2!r} is not negative semi-definite: eigenvalue {-ev.min()!r} against largest magnitude "
+                                  f"{ev.max()!r}", {"case": "near-coincident-charge", "basis": core.describe_basis(specs),
+                                                    "charge_position": [0.0, ratio * R, 0.0], "signature": {"kind": "gram-near-coincident-charge"}})
+                    return False
+    return True
+
+
 def check(run):
     rng = run.rng
     quick = run.tier == "quick"
     many_charges_case(run)
+    near_coincident_charge_case(run)
     # positive charges given as arrays of other integer types (atomic numbers as uint8 / uint64 / int64): refused or negative semi-definite
     from gbasis.integrals.point_charge import point_charge_integral
     from checks.common import repr_variants
@@ -210,6 +234,9 @@ def replay(run, rep):
     n0 = len(run.violations)
     if rep.get("case") == "many-charges":
         many_charges_case(run)
+        return len(run.violations) == n0
+    if rep.get("case") == "near-coincident-charge":
+        near_coincident_charge_case(run)
         return len(run.violations) == n0
     one_case(run, specs_from(rep), rep.get("eri", False))
     return len(run.violations) == n0
